@@ -40,6 +40,8 @@ type KeepAliveState struct {
 	PendingEchoID uint8         // Pending echo identifier
 	PendingEcho   bool          // Whether we're waiting for a reply
 	Latency       time.Duration // Last measured round-trip latency
+
+	session *Session // the registered session, handed to the callbacks
 }
 
 // KeepAliveManager manages LCP Echo keep-alive for all sessions
@@ -129,6 +131,7 @@ func (m *KeepAliveManager) RegisterSession(session *Session) {
 	m.states[session.ID] = &KeepAliveState{
 		LastActivity: time.Now(),
 		LastEchoRecv: time.Now(), // Start fresh
+		session:      session,
 	}
 
 	m.logger.Debug("Session registered for keep-alive",
@@ -234,9 +237,9 @@ func (m *KeepAliveManager) runLoop() {
 // checkAllSessions checks all registered sessions
 func (m *KeepAliveManager) checkAllSessions() {
 	m.mu.Lock()
-	defer m.mu.Unlock()
 
 	now := time.Now()
+	var echo []*Session // sessions to send an echo request to, once the lock is released
 
 	for sessionID, state := range m.states {
 		// Check if we're waiting for a reply that timed out
@@ -261,7 +264,7 @@ func (m *KeepAliveManager) checkAllSessions() {
 
 					// Need to release lock before calling terminate
 					// Use a goroutine to avoid deadlock
-					go m.terminateSessionAsync(sessionID, "Dead peer detected")
+					go m.terminateSessionAsync(sessionID, state.session, "Dead peer detected")
 					atomic.AddUint64(&m.sessionsKilled, 1)
 					continue
 				}
@@ -275,36 +278,52 @@ func (m *KeepAliveManager) checkAllSessions() {
 
 		// Send new echo request
 		if m.sendEcho != nil {
-			// We need to get the session object - this is handled by the callback
-			// The callback needs to find the session by ID
 			m.sendEchoForSession(sessionID, state)
+			if state.session != nil {
+				echo = append(echo, state.session)
+			}
 		}
+	}
+	m.mu.Unlock()
+
+	// The callback puts the request on the wire; it runs without the lock so
+	// that it may call back into the manager
+	for _, session := range echo {
+		id := m.sendEcho(session)
+		m.mu.Lock()
+		if state, ok := m.states[session.ID]; ok && state.session == session && state.PendingEcho {
+			state.PendingEchoID = id
+		}
+		m.mu.Unlock()
 	}
 }
 
-// sendEchoForSession sends an echo for a session
+// sendEchoForSession marks an echo request as outstanding for a session
 func (m *KeepAliveManager) sendEchoForSession(sessionID uint16, state *KeepAliveState) {
-	// This is called with lock held - caller must handle session lookup
-	// For now, we just mark the state
+	// This is called with lock held
 	state.LastEchoSent = time.Now()
 	state.PendingEcho = true
 	atomic.AddUint64(&m.echoRequestsSent, 1)
 }
 
 // terminateSessionAsync terminates a session asynchronously
-func (m *KeepAliveManager) terminateSessionAsync(sessionID uint16, reason string) {
+func (m *KeepAliveManager) terminateSessionAsync(sessionID uint16, session *Session, reason string) {
 	// Remove from our tracking first
 	m.mu.Lock()
-	delete(m.states, sessionID)
+	if state, ok := m.states[sessionID]; ok && state.session == session {
+		delete(m.states, sessionID)
+	}
 	m.mu.Unlock()
 
-	// Callback handles actual termination
-	// Note: The callback needs to find the session object
-	// This is a limitation of the current design
 	m.logger.Info("Terminating session due to dead peer",
 		zap.Uint16("session_id", sessionID),
 		zap.String("reason", reason),
 	)
+
+	// Callback handles actual termination
+	if m.terminateSession != nil && session != nil {
+		m.terminateSession(session, reason)
+	}
 }
 
 // SessionKeepAlive handles keep-alive for a single session
